@@ -19,6 +19,7 @@ DEBUG_OF = [V + "file::File", V + "record::Record<'_>", V + "record::RecordData<
 def run(chk, tier):
     prog, info = common.program("all")
     common.note_extraction(chk, info, prog)
+    common.vacuity(chk, ['R-PANIC'])
     chk.explanation = ("R-PANIC + R-TERM over everything reachable from the volume/record/chunk API (constructors, accessors, records, header, "
                        "compressed, decompress, messages, scan) and the Debug impls of File, Record, RecordData, Header and Chunk, including the "
                        "whole decode scope of C04 through Record::messages: every panic source must be discharged by interval analysis, every loop "
